@@ -336,6 +336,12 @@ func c13VerifierConfig(c *Ctx) {
 			c.Check(ok && p == "OpenId.ClientId", rule, "initOIDC Config.ClientID", cfgAlloc.Pos(), "audience = conf.OpenId.ClientId", "ClientID is not the configured client id")
 		case strings.HasPrefix(f, "Skip") || strings.HasPrefix(f, "Insecure"):
 			c.Bad(rule, "initOIDC Config."+f, cfgAlloc.Pos(), "verifier option %s weakens ID-token verification", f)
+		case f == "Now":
+			c.Bad(rule, "initOIDC Config.Now", cfgAlloc.Pos(), "the verifier's clock is replaced (Config.Now): expiry is no longer checked against the real time")
+		case f == "SupportedSigningAlgs":
+			c.OKTrivial(rule, "initOIDC Config."+f, cfgAlloc.Pos(), "restricts signing algorithms")
+		default:
+			c.Undecided(rule, "initOIDC Config."+f, cfgAlloc.Pos(), "unknown verifier option %s", f)
 		}
 	}
 	if len(st["ClientID"]) == 0 {
